@@ -530,6 +530,41 @@ func (x *runner) genSubseq(timeout int, plant int) {
 	}, len(s) > 0 && len(t) > 0)
 }
 
+// ---- F. randint ----------------------------------------------------------------
+
+var randintBounds = []int64{-9223372036854775808, -5000000000000000000, -4611686018427387904, -2, -1, 0, 1, 2, 7,
+	4611686018427387904, 5000000000000000000, 9223372036854775806, 9223372036854775807}
+
+func (x *runner) genRandint(timeout int, plant int) {
+	r := x.c.Rand
+	lo := randintBounds[r.Intn(len(randintBounds))]
+	hi := randintBounds[r.Intn(len(randintBounds))]
+	switch plant {
+	case 1:
+		lo, hi = -5000000000000000000, 5000000000000000000
+	case 2:
+		lo, hi = -9223372036854775808, 9223372036854775807
+	case 3:
+		lo, hi = -1, 9223372036854775807
+	}
+	class := "randint"
+	if new(big.Int).Sub(big.NewInt(hi), big.NewInt(lo)).Cmp(maxInt64) > 0 {
+		class = "randint-range-overflow"
+	}
+	prog := fmt.Sprintf("randint %d %d", lo, hi)
+	term := App("CRandint", Z(lo), Z(hi), "%OBS%")
+	x.mech("randint", class, term, &request{Code: prog, TimeoutMs: timeout}, func(resp response) (string, bool) {
+		if len(resp.Vals) != 1 {
+			return "", false
+		}
+		v, ok := new(big.Int).SetString(strings.TrimSuffix(strings.TrimPrefix(resp.Vals[0], "(num "), ")"), 10)
+		if !ok {
+			return "", false
+		}
+		return BigZ(v), true
+	}, hi > lo)
+}
+
 func (x *runner) mechanisms(n int) {
 	timeout := x.timeout
 	for p := 1; p <= 4; p++ {
@@ -537,6 +572,7 @@ func (x *runner) mechanisms(n int) {
 	}
 	for p := 1; p <= 3; p++ {
 		x.genSubseq(timeout, p)
+		x.genRandint(timeout, p)
 	}
 	for i := 0; i < n; i++ {
 		switch i % 10 {
@@ -547,7 +583,11 @@ func (x *runner) mechanisms(n int) {
 		case 6, 7:
 			x.genForm(timeout)
 		case 8:
-			x.genPow(timeout, 0)
+			if i%20 == 8 {
+				x.genPow(timeout, 0)
+			} else {
+				x.genRandint(timeout, 0)
+			}
 		default:
 			x.genSubseq(timeout, 0)
 		}
